@@ -321,13 +321,21 @@ impl<'ast, 's> Visit<'ast> for Finder<'s> {
             }
             // ---- R15: counted for over `_`
             syn::Expr::ForLoop(f) if self.on("R15") => {
-                if let (syn::Pat::Wild(_), syn::Expr::Range(r)) = (&*f.pat, &*f.expr) {
+                // `_` or a plain identifier (bound to the value the counter had before the increment)
+                let bind = match &*f.pat {
+                    syn::Pat::Wild(_) => Some(String::new()),
+                    syn::Pat::Ident(i) if i.subpat.is_none() && i.by_ref.is_none() => {
+                        Some(format!("let {} = __i - 1; ", i.ident))
+                    }
+                    _ => None,
+                };
+                if let (Some(bind), syn::Expr::Range(r)) = (bind, &*f.expr) {
                     if let (Some(a), Some(b), syn::RangeLimits::HalfOpen(_)) = (&r.start, &r.end, &r.limits) {
                         let body = self.txt(&f.body);
                         // body text starts with '{'
                         let inner = &body[1..];
                         let rep = format!(
-                            "{{ let mut __i = {}; while __i < {} {{ __i += 1; {}",
+                            "{{ let mut __i = {}; while __i < {} {{ __i += 1; {bind}{}",
                             self.txt(&**a),
                             self.txt(&**b),
                             inner
@@ -544,7 +552,8 @@ impl<'ast, 's> Visit<'ast> for Finder<'s> {
             match m.parse_body_with(parser) {
                 Ok(args) if !args.is_empty() => {
                     let c = self.txt(&args[0]);
-                    self.push(range_of(m), format!("runtime_assert({c})"), "R9");
+                    let f = if name == "debug_assert" { "debug_assert_shim" } else { "runtime_assert" };
+                    self.push(range_of(m), format!("{f}({c})"), "R9");
                 }
                 _ => self.err = Some("lost anchor: R9 cannot parse assert!".into()),
             }
